@@ -125,7 +125,7 @@ func runC06(c *core.Ctx, o Options) {
 	var order []ssa.Instruction
 	loggedish := m.Close(m.Set("SuccessfulLogged"))
 	for _, r := range s.roots() {
-		if r.Cat == "method" && !isExported(r.Fn.Name()) && s.inPkgCallers(r.Fn) > 0 {
+		if r.Cat == "method" && !isExported(an.NameOf(r.Fn)) && s.inPkgCallers(r.Fn) > 0 {
 			continue
 		}
 		if _, isWriter := m.StateWriters[r.Fn]; isWriter {
@@ -139,7 +139,7 @@ func runC06(c *core.Ctx, o Options) {
 				a := aggs[e.Instr]
 				if a == nil {
 					rule := "T1"
-					a = &siteAgg{ob: c.Ob(rule, r.Name(), "transition to "+e.Name+" in "+e.Fn.Name(), e.Pos)}
+					a = &siteAgg{ob: c.Ob(rule, r.Name(), "transition to "+e.Name+" in "+an.NameOf(e.Fn), e.Pos)}
 					aggs[e.Instr] = a
 					order = append(order, e.Instr)
 				}
@@ -638,7 +638,7 @@ func (s *sess) checkSettingsPreserved(rule string) {
 				return
 			}
 			n++
-			ob := c.Ob(rule, fn.Name(), "replacement of Session.LogonSettings keeps HeartBtLimits, CloseTimeout, LogonTimeout", st.Pos())
+			ob := c.Ob(rule, an.NameOf(fn), "replacement of Session.LogonSettings keeps HeartBtLimits, CloseTimeout, LogonTimeout", st.Pos())
 			// symbolic evaluation of the installed object (literal here or in a constructor helper), see settings.go
 			fl := s.settingsFlow(fn)
 			if fl.Problem != "" {
